@@ -98,6 +98,7 @@ public:
   int error_count;
   int ifdef_count;
   int include_count;
+  int expression_depth;
   int parsing_ifdef;
   Linker *linker;
   char def_param_stack_data[PARAM_STACK_LEN];
